@@ -2079,35 +2079,58 @@ class StridedInterval:
         ret.uninitialized = self.uninitialized
         return ret
 
+    def _lshift(self, shift_amount: int) -> StridedInterval:
+        """
+        Left shift with a concrete shift amount
+
+        :param int shift_amount: Number of bits to shift left.
+        :return: The new StridedInterval after left shifting
+        :rtype: StridedInterval
+        """
+
+        if self.is_empty:
+            return self
+
+        # Walk from the lower bound: the members are lower_bound + k * stride with k * stride <= span
+        span = self._modular_sub(self.upper_bound, self.lower_bound, self.bits)
+        if (span << shift_amount) < 2**self.bits:
+            # The shifted members do not catch up with the shifted lower bound
+            return StridedInterval(
+                bits=self.bits,
+                stride=self.stride << shift_amount,
+                lower_bound=self.lower_bound << shift_amount,
+                upper_bound=(self.lower_bound + span) << shift_amount,
+                uninitialized=self.uninitialized,
+            )
+        if shift_amount >= self.bits:
+            return StridedInterval(bits=self.bits, stride=0, lower_bound=0, upper_bound=0)
+        # Only the low zero bits are known
+        return StridedInterval(
+            bits=self.bits,
+            stride=1 << shift_amount,
+            lower_bound=0,
+            upper_bound=2**self.bits - (1 << shift_amount),
+            uninitialized=self.uninitialized,
+        )
+
     @reversed_processor
     def lshift(self, shift_amount: StridedInterval) -> StridedInterval:
         lower, upper = self._get_shift_range(shift_amount)
 
-        # Shift the lower_bound and upper_bound by all possible amounts, and
-        # get min/max values from all the resulting values
+        # Shift by all possible amounts, and union all possible results
 
-        new_lower_bound = None
-        new_upper_bound = None
+        ret = None
+
         for amount in range(lower, upper + 1):
-            lower_shifted = self.lower_bound << amount
-            if new_lower_bound is None or lower_shifted < new_lower_bound:
-                new_lower_bound = lower_shifted
-            upper_shifted = self.upper_bound << amount
-            if new_upper_bound is None or upper_shifted > new_upper_bound:
-                new_upper_bound = upper_shifted
+            si_ = self._lshift(amount)
 
-        # NOTE: If this is an arithmetic operation, we should take care
-        # of sign-changes.
+            ret = si_ if ret is None else ret.union(si_)
 
-        ret = StridedInterval(
-            bits=self.bits,
-            stride=max(self.stride << lower, 1),
-            lower_bound=new_lower_bound,
-            upper_bound=new_upper_bound,
-            uninitialized=self.uninitialized,
-        )
+        if ret is None:
+            return StridedInterval.top(self.bits)
+
         ret.normalize()
-
+        ret.uninitialized = self.uninitialized
         return ret
 
     @reversed_processor
